@@ -32,7 +32,10 @@ def gen_cases(tier, seed):
             blocks = r.choice([0, 1, 2, 3, 7, 16, 64])
             size = 0 if blocks == 0 else (blocks - 1) * bs + r.choice([1, bs // 2, bs])
             maxblocks = max(maxblocks, blocks)
-            spec.append({"p": r.choice(["src/f%d", "src/d/f%d"]) % j, "k": "f", "size": size, "seed": r.randrange(1, 1 << 30), "segs": None})
+            e = {"p": r.choice(["src/f%d", "src/d/f%d"]) % j, "k": "f", "size": size, "seed": r.randrange(1, 1 << 30), "segs": None}
+            if r.random() < 0.2:
+                e.update({"size": 3 << 20, "segs": r.choice([[], [[0, 5000]], [[4096, 9000], [2 << 20, 70000]]]), "sync": True})   # sparse / all-hole
+            spec.append(e)
         pol = r.choice(["none", "none", "none", "cloneok", "cfr-short"])
         sch = dict(r.choice(scheds))
         sch["sched_seed"] = r.randrange(1 << 30)
